@@ -4,6 +4,7 @@
 mod util;
 mod c02;
 mod c08;
+mod c12;
 
 fn main() {
     std::panic::set_hook(Box::new(|_| {}));
@@ -18,6 +19,7 @@ fn main() {
     match fam {
         "c02" => c02::run(tier, seed, &mut out),
         "c08" => c08::run(tier, seed, &mut out),
+        "c12" => c12::run(tier, seed, &mut out),
         _ => {
             eprintln!("unknown family {}", fam);
             std::process::exit(2);
